@@ -95,21 +95,9 @@ def one(ctx, rng, linear):
     n = len(sl)
     x0 = np.array(M.get_species_array(), dtype=float)
     rhs_corr(ctx, spec, M, rng)
-    M = build_model(spec)
-    res = py_simulate_model(T.copy(), Model=M, stochastic=False, return_dataframe=False)
-    rows = np.array(res.py_get_result())
-    ctx.evaluated()
     rep = {"spec": spec, "times": T.tolist()}
-    if rows.shape != (len(T), n):
-        ctx.violation("det/shape", "result has shape %s for %d time points" % (rows.shape, len(T)), rep)
-        return
-    if np.any(np.isnan(rows)):
-        ctx.count("integration_failed_reported_as_nan")
-        return
-    if not np.allclose(rows[0], x0, rtol=1e-9, atol=1e-12):
-        ctx.violation("det/first-row", "first row %s is not the initial condition %s" % (rows[0].tolist(), x0.tolist()), rep)
-        return
-    # ---- reference solution of dx/dt = (S + S_d) rate(x, t)
+    # ---- reference solution of dx/dt = (S + S_d) rate(x, t), computed first: it also decides whether the model is inside
+    # the property's domain (bounded, non-stiff); models outside it are discarded before the implementation is run
     S = np.array(M.py_get_update_array()) + np.array(M.py_get_delay_update_array())
     if linear:
         A = np.zeros((n, n)); b = np.zeros(n)
@@ -132,12 +120,29 @@ def one(ctx, rng, linear):
             dx = np.zeros(n)
             I.py_calculate_deterministic_derivative(np.array(x, dtype=float), dx, float(t))
             return dx
-        sol = solve_ivp(f, (float(T[0]), float(T[-1])), x0, method="DOP853", t_eval=T, rtol=1e-12, atol=1e-12)
-        if not sol.success or np.max(np.abs(sol.y)) > 1e6:
-            ctx.count("reference_unbounded_or_failed")
+        try:
+            sol = solve_ivp(f, (float(T[0]), float(T[-1])), x0, method="DOP853", t_eval=T, rtol=1e-12, atol=1e-12)
+        except (TypeError, ValueError, FloatingPointError):
+            ctx.count("reference_unbounded_or_failed")       # the rate law left its domain (negative base of a power)
+            return
+        if not sol.success or np.max(np.abs(sol.y)) > 1e6 or sol.nfev > 60000 or np.min(sol.y) < -1e-9:
+            ctx.count("reference_unbounded_or_failed")       # unbounded, stiff (an explicit method needs that many steps) or leaving the orthant
             return
         ref = sol.y.T
         kind = "dop853"
+    M = build_model(spec)
+    res = py_simulate_model(T.copy(), Model=M, stochastic=False, return_dataframe=False)
+    rows = np.array(res.py_get_result())
+    ctx.evaluated()
+    if rows.shape != (len(T), n):
+        ctx.violation("det/shape", "result has shape %s for %d time points" % (rows.shape, len(T)), rep)
+        return
+    if np.any(np.isnan(rows)):
+        ctx.count("integration_failed_reported_as_nan")
+        return
+    if not np.allclose(rows[0], x0, rtol=1e-9, atol=1e-12):
+        ctx.violation("det/first-row", "first row %s is not the initial condition %s" % (rows[0].tolist(), x0.tolist()), rep)
+        return
     tol = 2e-5 * (1.0 + np.abs(ref))
     err = np.abs(rows - ref)
     if np.any(err > tol):
